@@ -867,11 +867,17 @@ def ident_grammars(rng, n):
         ('blank-terminal', '%start S\n%%\nS: " " "  " "x";\n'),
         ('member-names', '%start S\n%%\nS: A@x A@x2 "a"@x3 [ A@y ] { A@z };\nA: "a"@a "a"@a2;\n'),
         ('same-member', '%start S\n%%\nS: A@x "b"@x;\nA: "a";\n'),
+        # a numerically suffixed name BEFORE the clashing base name (the numbering must still avoid it)
+        ('suffix-before-base-terminals', '%start S\n%%\nS: "a0" "a" "A" | "b1" "b" "B" "B";\n'),
+        ('suffix-before-base-members', '%start S\n%%\nS: A0 A A | A1 A0 A A A;\nA0: "x";\nA1: "z";\nA: "y";\n'),
+        ('suffix-before-base-helpers', '%start S\n%%\nS: SOpt0 [ "a" ] [ "b" ] | SList0 { "c" } { "d" };\nSOpt0: "o";\nSList0: "l";\n'),
     ]
-    specials = ['"+"', '"-"', '"\\*"', "'*'", '"=="', '"="', '"!"', '"<="', '"<"', '","', '";"', '"a"', '"A"', '"a1"', '"_"', '"%"', '"#"', '"~"', '"\\|"', '"&&"']
+    specials = ['"+"', '"-"', '"\\*"', "'*'", '"=="', '"="', '"!"', '"<="', '"<"', '","', '";"', '"a"', '"A"', '"a1"', '"a0"', '"A0"', '"_"', '"%"', '"#"', '"~"', '"\\|"', '"&&"', '"plus0"', '"Plus"', '"+"']
     for i in range(n):
         ts = rng.sample(specials, rng.randint(2, 7))
-        nts = rng.sample(['S', 'Item', 'item', 'Item1', 'List', 'ItemList', 'ItemOpt', 'Type', 'type_', 'Box1'], rng.randint(1, 4))
+        nts = rng.sample(['S', 'Item', 'item', 'Item1', 'Item0', 'List', 'ItemList', 'ItemOpt', 'ItemOpt0', 'Type', 'type_', 'Box1'], rng.randint(1, 4))
+        if rng.random() < 0.5:
+            nts.sort(reverse=True)      # suffixed names first
         if 'S' not in nts:
             nts[0] = 'S'
         s = '%start S\n%%\n'
